@@ -257,7 +257,46 @@ var lexemes = []string{"(", ")", "&&", "||", "!", ",", " ", "\t", "\n", "\r\n", 
 	"req_cip_hash_in(\"10000\")", "req_url_regmatch(`^/s\\?w=1`)", "req_url_regmatch(\"(\")", "bfe_periodic_time_range(\"203000H\", \"204500H\", \"\")", "bfe_time_range(\"20190204203000H\", \"20190204204500H\")",
 	"unknown_prim()", "req_method_in (\"GET\")", "req_method_in//c\n(\"GET\")", "req_method_in(\"GET\",)", "req_method_in(,\"GET\")", "req_method_in(\"GET\" \"POST\")", "req_method_in(req_method_in(\"GET\"))", "req_method_in(x)", "req_method_in(1)"}
 
+// boundary stream: a well-formed frame with one lexical boundary case inserted
+var escs = []string{`\377`, `\400`, `\777`, `\000`, `\08`, `\8`, `\12`, `\x41`, `\x4`, `\x4g`, `\xff`, `\X41`, `\u0041`, `\u004`, `\uD7FF`, `\uD800`, `\uDFFF`, `\uE000`,
+	`\udfff`, `\U0010FFFF`, `\U00110000`, `\U0000004`, `\U00000041`, `\a`, `\b`, `\f`, `\n`, `\r`, `\t`, `\v`, `\\\\`, `\"`, `\'`, `\q`, `\e`, `\0`, `\`, "a\nb", "a\rb", "a\tb", "a\x00b", "//", "`", "'", "a|b", ""}
+var joins = []string{"&&", "||", "&", "|", "& &", "| |", "&&&", "|||", "&|", "// c\n&&", "//&&\n||", "&& // c", "&&//", "/ &&", "/* */ &&", "\x00&&", "&&\x00", ";", "&&;", ",", "&& !", "&&!(", ") && (", "&&\n", "\r&&\r", "\t||\t", "&& true &&", "&& x &&", "&& 1 &&", "&& \"s\" &&", "!", ""}
+var frames = []string{"default_t()", "req_method_in(\"GET\")", "(default_t())", "!default_t()", "req_path_in(\"/a\", true)"}
+
+func genBoundary(r *hv.Rng) (string, hv.Val) {
+	switch r.Intn(6) {
+	case 0, 1: // escape sequences inside an otherwise valid double-quoted argument
+		e := escs[r.Intn(len(escs))]
+		pre, post := []string{"", "G", "ab"}[r.Intn(3)], []string{"", "T", "1"}[r.Intn(3)]
+		t := "req_method_in(\"" + pre + e + post + "\")"
+		if r.Chance(1, 3) {
+			t = "req_path_in(\"" + pre + e + post + "\", false) && default_t()"
+		}
+		return textCase("text-escape", t)
+	case 2: // the same bytes inside a raw string (no escapes there; CR stripped)
+		e := escs[r.Intn(len(escs))]
+		t := "req_method_in(`" + e + "`)"
+		if r.Chance(1, 2) {
+			t = "req_cip_hash_in(`1" + []string{"\r", "\n", " ", "\t", "\r\r0", "", "0\r0"}[r.Intn(7)] + "`)"
+		}
+		return textCase("text-raw", t)
+	case 3, 4: // operator / comment / NUL boundaries between two valid operands
+		t := frames[r.Intn(len(frames))] + []string{"", " ", "\n"}[r.Intn(3)] + joins[r.Intn(len(joins))] + []string{"", " ", "\n"}[r.Intn(3)] + frames[r.Intn(len(frames))]
+		return textCase("text-join", t)
+	default: // prefix / suffix garbage and call-syntax boundaries
+		f := frames[r.Intn(len(frames))]
+		v := []string{f + " // tail", f + "//", f + "\n//\n", "// head\n" + f, "//" + f, f + "\x00", "\x00" + f, f + " )", "( " + f, "((" + f + "))", f + f, f + " " + f,
+			"default_t(())", "default_t(,)", "default_t", "default_t (\n)", "req_method_in(\"GET\"", "req_method_in \"GET\")", "req_method_in(\"GET\" , )", "req_method_in(\"A\" , \"B\")",
+			"req_method_in(true)", "req_path_in(\"/a\", TRUE)", "req_path_in(\"/a\", True)", "req_path_in(\"/a\", \"true\")", "req_path_in(\"/a\",true)", "req_path_in(true, \"/a\")",
+			"a-b()", "_()", "-", "req_method_in(\"GET\").x", "req_method_in(\"GET\")()", "!(!" + f + ")", "!!" + f, "! ! !" + f, "true", "false && " + f, "go()", "if", "default()", "fallthrough", "x1(\"a\")", "1x"}
+		return textCase("text-syntax", v[r.Intn(len(v))])
+	}
+}
+
 func genText(r *hv.Rng) (string, hv.Val) {
+	if r.Chance(2, 5) {
+		return genBoundary(r)
+	}
 	switch r.Intn(5) {
 	case 0, 1: // lexeme soup
 		n := r.Range(0, 7)
